@@ -1,14 +1,20 @@
 #!/bin/sh
-# usage: tools/seedtest.sh <seeded-dir-name> <check id>...   — applies seeded/<name>/patch.diff to /repo, runs checks, reverts.
+# usage: tools/seedtest.sh <seeded-dir-name> <check id>...
+# Runs the given checks against gotd/td with seeded/<name>/patch.diff applied, in an isolated scratch
+# copy (worktree of /repo + copy of /verif under /tmp/mt/<name>), so /repo itself is never touched.
 set -u
 name=$1; shift
-cd /verif
-git -C /repo apply --3way /verif/seeded/$name/patch.diff 2>/dev/null || git -C /repo apply /verif/seeded/$name/patch.diff || { echo "patch does not apply"; exit 3; }
-git -C /repo reset -q
+S=/tmp/mt/$name
+rm -rf $S; mkdir -p $S
+git -C /repo worktree prune
+git -C /repo worktree add --detach $S/repo HEAD >/dev/null 2>&1 || { echo "worktree failed"; exit 3; }
+( cd $S/repo && (git apply --3way /verif/seeded/$name/patch.diff >/dev/null 2>&1 || git apply /verif/seeded/$name/patch.diff) ) || { echo "seed=$name: patch does not apply"; git -C /repo worktree remove --force $S/repo; exit 3; }
+rsync -a --exclude out --exclude .git --exclude evidence /verif/ $S/verif/
+sed -i "s#=> /repo#=> $S/repo#" $S/verif/harness/go.mod
+mkdir -p $S/verif/out $S/verif/evidence /verif/out/seedlogs
 for id in "$@"; do
-  ./check $id > out/seed_${name}_$id.log 2>&1; rc=$?
-  echo "seed=$name check=$id rc=$rc $(grep -c '^VIOLATION' out/seed_${name}_$id.log) violation lines"
-  grep -A1 '^VIOLATION' out/seed_${name}_$id.log | head -6
+  ( cd $S/verif && VERIF_REPO=$S/repo ./check $id ) > /verif/out/seedlogs/${name}_$id.log 2>&1; rc=$?
+  echo "seed=$name check=$id rc=$rc violations=$(grep -c '^VIOLATION' /verif/out/seedlogs/${name}_$id.log) $(grep -m1 '  sig=' /verif/out/seedlogs/${name}_$id.log | cut -c1-160)"
 done
-git -C /repo checkout -- .
-git -C /repo status --short | head
+git -C /repo worktree remove --force $S/repo
+rm -rf $S
